@@ -91,3 +91,18 @@ chk("C10",
     "configs/indexes/tokens opaque, Search is a leaf; the cleanup delay is harness-controlled. Overlapping connections are C12.",
     "Lean 4 proof over a program regenerated from the source by a translator (refinement to a 3-state machine) + exhaustive-to-depth differential correspondence",
     "6/C10")
+chk("C13",
+    "Server: unbounded theorems (Props/C13.lean) about the program extracted from frontend/server/** on this run: for every consistent durable state, "
+    "every configuration or index upload and EVERY number k of completed file-system mutations (mkdir, open/write of the temporary file, rename), the "
+    "disk a kill leaves denotes the state before or after the request; on every such disk a new connection is accepted and echoes the denoted state; "
+    "and every continuation behaves as the 3-state reference machine from that state (so the interrupted step is retried exactly when the echo asks "
+    "for it and searches are answered from the acknowledged index). Client: the extracted persisting handlers are proved to use only atomic "
+    "replace steps in the order data-before-flag; the semantic client statement is decided by exhaustive enumeration of all client crash points on "
+    "the real code (kill before every mutation of create/key/encrypt/both acknowledgement handlers, restart, finish the workflow, compare the search "
+    "result). Tie: translator + the interposer's logged mutation sequence of every handler must equal the extracted primitive list + disk and echo "
+    "after a kill at every k must equal the interpreter's.",
+    "Trusted: Lean kernel + 3 standard axioms; the crash model (a process stops between two file-system calls; completed calls are durable; os.replace is "
+    "atomic; no torn write inside one call); the interposer sees every mutation; the client-side recoverability is fault enumeration, not a theorem "
+    "(client_semantic_partial).",
+    "Lean 4 proof over the extracted program (all crash prefixes x all consistent states) + exhaustive crash-point enumeration on the real code",
+    "6/C13")
